@@ -67,7 +67,7 @@ def lex(s):
 
 PAYLOADS = ['x"onerror="alert(1)', "a'b", '<script>', '&quot;', 'a&b', '"><img src=x>', '\\">', '%22', 'java\tscript:', 'é"ü', "x' onmouseover='y",
             'a b', 'a<b', 'a>b', '&#34;', '&amp;quot;', '"', "'", '`', 'x"y"z', '<>', ']]>', '-->', 'a\\"b', '&lt;', 'javascript:alert("x")', 'a)b', '(x")',
-            '\x7f', ' ']
+            '\x7f', ' ', '{inner}', '{target}', '{}', '{0}', '{', '}', '{a, b}', '%s', '%(x)s', '{{x}}', '\\1', '\\g<0>', '$1', '{title}', '{tag}']
 TEMPLATES = ['[a]({p})', '[a](<{p}>)', '![{p}](x)', '![a]({p})', '![a](x "{p}")', "[a](x '{p}')", '[a](x ({p}))', '```{p}\ncode\n```', '~~~ {p}\n{p}\n~~~',
              '<http://x/{p}>', '<{p}@example.com>', '[a]: {p} "{p}"\n\n[a]', '[{p}]: /u "t"\n\n[{p}]', '`{p}`', '    {p}', '# {p}', '> {p}', '- {p}', '**{p}**',
              '| {p} |\n|---|\n| {p} |', '[{p}](u)', '![a](<{p}> "{p}")', '{p}', 'a *{p}* ~~{p}~~', '[a][{p}]\n\n[{p}]: <{p}> ({p})', '1. {p}\n2. `{p}`',
